@@ -475,16 +475,19 @@ def frag_dispatch():
 # ---------------------------------------------------------------------------------------------
 
 class PtrStmts:
-    """stmts := stmt* ; stmt := 'if' '(' cond ')' '{' stmts '}' ('else' '{' stmts '}')? | path '=' rhs ';'
-    cond := path | path '==' path ; path := ident ('->' ident)* ; rhs := path | 'removedCounter'"""
+    """stmts := stmt* ; stmt := 'if' '(' cond ')' '{' stmts '}' ('else' '{' stmts '}')? | 'while' '(' path ')' '{' stmts '}'
+    | 'NodePtr'? path '=' rhs ';' | '{' ('std::lock_guard<Mutex>' ident '(' 'mutex' ')' ';')? stmts '}'
+    cond := path | path '==' path ; path := ident ('->' ident)* ; rhs := path | 'removedCounter' | integer"""
     VARS = {"node": 0, "beforeNode": 1}
 
     def __init__(self, text):
-        self.toks = re.findall(r"->|==|[A-Za-z_]\w*|[{}();=]", strip_comments(text))
-        rest = re.sub(r"->|==|[A-Za-z_]\w*|[{}();=]|\s+", "", strip_comments(text))
+        text = re.sub(r"std::lock_guard<Mutex>\s*\w+\s*\(\s*mutex\s*\)\s*;", " LOCKGUARD ; ", strip_comments(text))
+        self.toks = re.findall(r"->|==|[A-Za-z_]\w*|\d+|[{}();=]", text)
+        rest = re.sub(r"->|==|[A-Za-z_]\w*|\d+|[{}();=]|\s+", "", text)
         if rest:
             raise ValueError("unexpected characters in pointer code: %r" % rest[:40])
         self.i = 0
+        self.locked = False
 
     def peek(self):
         return self.toks[self.i] if self.i < len(self.toks) else None
@@ -558,12 +561,32 @@ class PtrStmts:
                 self.eat()
                 e = self.block()
             return "(.ite %s %s %s)" % (c, t, e)
+        if self.peek() == "while":
+            self.eat()
+            self.eat("(")
+            c = self.ptr()
+            self.eat(")")
+            return "(.whileNN %s %s)" % (c, self.block())
+        if self.peek() == "{":
+            # a scope (with or without a lock_guard on the list mutex): sequential semantics
+            return self.block()
+        if self.peek() == "LOCKGUARD":
+            self.eat()
+            self.eat(";")
+            self.locked = True
+            return ".skip"
+        if self.peek() == "NodePtr":
+            self.eat()          # declaration of a local pointer with initialiser
         k, p = self.path()
         self.eat("=")
         if k == "counter":
-            self.eat("removedCounter")
+            v = self.eat()
+            if v == "removedCounter":
+                v = "0"
+            if not v.isdigit():
+                raise ValueError("counter value expected, found %r" % v)
             self.eat(";")
-            return "(.markRemoved %s)" % p
+            return "(.setCounter %s %s)" % (p, v)
         r = self.ptr()
         self.eat(";")
         return "(.assign %s %s)" % (p, r)
@@ -607,7 +630,17 @@ def frag_cl():
     # the block that holds the lock must be the one that contains the test (no closing brace in between)
     if ins_locked and "}" in body[lockpos:m.start()]:
         ins_locked = False
-    text = GEN_HEADER % "callbacklist.h doAppend / doInsert / doFreeNode bodies, doForEachIf guard, remove() and insert() tests"
+    # getNextCounter(): `Counter result = ++currentCounter; if(result == 0) { <reset loop> result = ++currentCounter; } return result;`
+    body = find_function_body(src, r"Counter\s+getNextCounter\s*\(\s*\)\s*\{")
+    m = re.fullmatch(r"\s*Counter\s+result\s*=\s*\+\+currentCounter\s*;\s*;?\s*if\s*\(\s*result\s*==\s*0\s*\)\s*\{(.*)result\s*=\s*\+\+currentCounter\s*;\s*\}\s*return\s+result\s*;\s*", body, re.S)
+    if not m:
+        raise ValueError("getNextCounter() not recognised")
+    pw = PtrStmts(m.group(1))
+    out["wrapReset"] = pw.stmts()
+    if pw.peek() is not None:
+        raise ValueError("trailing tokens in the wrap branch of getNextCounter")
+    wrap_locked = pw.locked
+    text = GEN_HEADER % "callbacklist.h doAppend / doInsert / doFreeNode bodies, wrap branch of getNextCounter, doForEachIf guard, remove() and insert() tests"
     text += "import EventppVerif.CL.PtrLang\nnamespace Evp.Gen.Cl\nopen Evp.PL\n\n"
     for k, v in out.items():
         text += "def %s : Stmt :=\n  %s\n\n" % (k, v[1:-1] if v.startswith("(") and v.endswith(")") else v)
@@ -618,5 +651,7 @@ def frag_cl():
     text += "/-- the test in insert() that selects doInsert (true) or doAppend (false): nc = beforeNode->counter -/\n"
     text += "def insertTest (nc : Nat) : Bool := %s\n\n" % ins
     text += "/-- is that test made after the list mutex was taken (in the same block)? -/\n"
-    text += "def insertTestLocked : Bool := %s\n\nend Evp.Gen.Cl\n" % ("true" if ins_locked else "false")
+    text += "def insertTestLocked : Bool := %s\n\n" % ("true" if ins_locked else "false")
+    text += "/-- getNextCounter has the shape `r = ++cur; if(r == 0) { wrapReset; r = ++cur; } return r`; is wrapReset under the list mutex? -/\n"
+    text += "def wrapResetLocked : Bool := %s\n\nend Evp.Gen.Cl\n" % ("true" if wrap_locked else "false")
     return True, text, ""
